@@ -150,6 +150,10 @@ def run(run, ix, tier):
     from .kernel_rules import check_amplified_error
     run.rule('B-R10', floor=6, desc='amplified intermediates carry multiplier-dependent guard bits')
     check_amplified_error(run, ix, 'B-R10')
+    # ---- S-R2: documented limits at 0, +-inf and nan (sa/checks/special_rules.py) ------------------------
+    from .special_rules import check_special_values, ELEMENTARY
+    run.rule('S-R2', floor=50, desc='documented limits of the elementary kernels on every special operand class')
+    check_special_values(run, ix, 'S-R2', sorted(ELEMENTARY))
     # ---- B-R8: real-axis delegation of the complex exp/trig family ---------------------------------
     run.rule('B-R8', floor=10, desc='complex exp/trig kernels delegate real-axis arguments to the real kernel')
     for name in AXIS_FAMILY:
